@@ -334,18 +334,26 @@ def coq_ty(t):
 # --------------------------------------------------------------------------- harness / ti runners
 
 def vh_batch(reqs, cwd=None, timeout=600):
-    """Send a list of JSON requests to the harness; return list of answers."""
-    if not reqs:
-        return []
-    inp = "\n".join(json.dumps(r) for r in reqs).encode() + b"\n"
+    """Send JSON requests to the harness; return the answers (one per request).
+    A request on which the real code does not terminate is answered {"hang": true}: the harness exits
+    there and is restarted on the remaining requests."""
+    answers = []
     d = cwd or tempfile.mkdtemp(prefix="vh_", dir=BUILD)
     try:
-        p = subprocess.run([VH], cwd=d, input=inp, stdout=subprocess.PIPE, stderr=subprocess.PIPE, timeout=timeout)
-        outs = [json.loads(l) for l in p.stdout.decode("utf-8", "replace").split("\n") if l.strip()]
-        if len(outs) != len(reqs):
+        todo = list(reqs)
+        while todo:
+            inp = "\n".join(json.dumps(r) for r in todo).encode() + b"\n"
+            p = subprocess.run([VH], cwd=d, input=inp, stdout=subprocess.PIPE, stderr=subprocess.PIPE, timeout=timeout)
+            outs = [json.loads(l) for l in p.stdout.decode("utf-8", "replace").split("\n") if l.strip()]
+            answers.extend(outs)
+            if len(outs) == len(todo):
+                break
+            if outs and outs[-1].get("hang"):
+                todo = todo[len(outs):]
+                continue
             raise RuntimeError("harness answered %d of %d requests: rc=%s stderr=%s" % (
-                len(outs), len(reqs), p.returncode, p.stderr.decode("utf-8", "replace")[-2000:]))
-        return outs
+                len(outs), len(todo), p.returncode, p.stderr.decode("utf-8", "replace")[-2000:]))
+        return answers
     finally:
         if cwd is None:
             shutil.rmtree(d, ignore_errors=True)
